@@ -33,7 +33,7 @@ static bool same_out(const Out &a, const Out &b) { if (a.threw!=b.threw) return 
 static bool clean(const Out &o, const std::string &pre) { if (o.threw) return true; if (!hx::independent_of(o.res,pre)) return false; for (auto &v : o.x) if (!hx::independent_of(v,pre)) return false; return true; }
 
 template<class MS, class SetP> static void reuse_case(const std::string &nm, const Pattern &p, hx::Rng &rng, SetP setp, bool expect_stateful=false) {
-    hx::CaseOptions coo; coo.max_paths=24; coo.max_depth=160;
+    hx::CaseOptions coo; coo.max_paths=12; coo.max_depth=160;
     hx::run_case("reuse/"+nm+"/"+p.name, [&]() {
         hx::Rng r2(rng.s); SCrs A=hx::mmatrix(p,r2); int n=p.n; typename MS::params prm; setp(prm);
         std::vector<scalar> mat0=A.val;
